@@ -167,9 +167,48 @@ pub fn judge(c: &LineCase, run: &Run) -> Verdict {
     v
 }
 
+/// The same single line in contexts that must not change what it means (the value is looked up
+/// in the LAST slot): held in a variable, followed by a comment, as the second line of a text,
+/// and on a calculator that also carries a user rule and a user unit family matching nothing.
+pub fn contexts_of(c: &LineCase) -> Vec<(&'static str, LineCase)> {
+    if c.text.contains('\n') || c.text.contains('=') || c.text.contains('#') || c.tag.contains(':') {
+        return Vec::new();
+    }
+    let mut with_extras = c.cfg.clone();
+    with_extras.user_rule = true;
+    if with_extras.user_unit.is_none() {
+        with_extras.user_unit = Some((2, true, true));
+    }
+    vec![
+        ("held in a variable", LineCase { text: format!("zq = {}\nzq", c.text), ..c.clone() }),
+        ("followed by a comment", LineCase { text: format!("{} # note 5 %", c.text), ..c.clone() }),
+        ("as the second line of a text", LineCase { text: format!("1 + 1\n{}", c.text), ..c.clone() }),
+        ("next to a user rule and a user unit family that match nothing", LineCase { cfg: with_extras, ..c.clone() }),
+    ]
+}
+
 pub fn exec_line(ctx: &mut Ctx, c: &LineCase) -> Verdict {
     let run = run_case(ctx, c);
-    judge(c, &run)
+    let mut v = judge(c, &run);
+    // ---- the same line in contexts that must not change what it means ----------------------
+    // Only for single-line cases with a definite value prediction that held.  A violation in a
+    // context is reported with the context written into the input.
+    let definite = matches!(c.expect, Expect::Value(..) | Expect::ValueOut(..) | Expect::Output(..));
+    if v.violation.is_some() || !definite || c.text.contains('\n') || c.text.contains('=') || c.text.contains('#') || c.tag.contains(':') {
+        return v;
+    }
+    for (what, cc) in contexts_of(c).iter() {
+        let r = run_case(ctx, cc);
+        v.evals += 1;
+        let j = judge(cc, &r);
+        if j.violation.is_some() {
+            let mut j = j;
+            j.violation = Some(format!("{} [context: {}]", j.violation.unwrap(), what));
+            j.evals = v.evals;
+            return j;
+        }
+    }
+    v
 }
 
 /// canonical decimal -> text under the library's default convention (',' decimal)
